@@ -133,6 +133,8 @@ class P(Prop):
                 dt0 = rng.choice([c["inp"]["dt"][0], Fraction(1, 10), Fraction(1, 5), Fraction(3, 10), Fraction(7, 10), Fraction(6, 5)])
                 c["inp"]["dt"] = [dt0] * c["inp"]["n"]
             c["with_ts_message"] = rng.random() < 0.3
+            c["inp"]["int_dt"] = rng.random() < 0.3          # whole-second intervals as an integer array
+            c["reuse_converter"] = rng.random() < 0.3        # one converter object, re-targeted through its setters, exports twice
             c["fuel_spec"] = rng.choice(["IMO", "IMO", "FUEL_EU_MARITIME"])
             out.append(c)
         return out
@@ -193,6 +195,10 @@ class P(Prop):
                                                                            for k in range(n + 1)])
                 conv = FEEMSResultConverter(feems_result=result, system_feems=system, time_series_input=tsm, fuel_specified_by=spec)
                 try:
+                    if case.get("reuse_converter"):
+                        conv.get_feems_result_proto(include_time_series_for_components=True)
+                        conv.feems_result = result
+                        conv.system_feems = system
                     msg = conv.get_feems_result_proto(include_time_series_for_components=case["series"])
                 except NotImplementedError as e:
                     return {"not_implemented": str(e)[:120], "classes": sorted({d["cls"] for d in plant["comps"]})}
@@ -288,6 +294,10 @@ class P(Prop):
              "spec=" + case["fuel_spec"]]
         if case.get("same_name"):
             t.append("two-components-with-the-same-name")
+        if case.get("reuse_converter"):
+            t.append("converter-object-re-targeted-and-used-twice")
+        if case["inp"].get("int_dt") and not case["scalar_dt"]:
+            t.append("intervals-as-integer-array")
         if case.get("same_name_across_subsystems"):
             t.append("main-engine-with-name-and-node-number-of-a-genset")
         if case["scalar_dt"] and case["inp"]["dt"][0] != int(case["inp"]["dt"][0]):
